@@ -97,6 +97,35 @@ def construct(m, style=0):
                                  signature=sig, body=body)
 
 
+def fd_messages(rng, n):
+    """method calls carrying file descriptors: abstract message (UNIX_FDS field = number of
+    descriptors, 'h' values = indices into the out-of-band list) and the constructed object"""
+    for i in range(n):
+        k = rng.randint(1, 3)
+        shape = rng.choice(['flat', 'struct', 'array'])
+        fds = [200 + 7 * i + j for j in range(k)]
+        idx = [tuple(j.to_bytes(4, 'little')) for j in range(k)]
+        if shape == 'flat':
+            bodyT, body, pybody = tuple(('h',) for _ in range(k)), tuple(idx), list(fds)
+        elif shape == 'struct':
+            bodyT, body, pybody = (('(', tuple(('h',) for _ in range(k))),), (tuple(idx),), [tuple(fds)]
+        else:
+            bodyT, body, pybody = (('a', ('h',)),), (tuple(idx),), [list(fds)]
+        P = lambda x: tuple(x.encode())
+        fields = [(1, ('o',), P('/fd/%d' % i)), (3, ('s',), P('Take'))]
+        if rng.random() < 0.5:
+            fields.append((6, ('s',), P(':1.%d' % (i + 2))))
+        fields.append((9, ('u',), tuple(k.to_bytes(4, 'little'))))
+        serial = 700 + i
+        m = {'type': 1, 'nr': False, 'na': False, 'serial': serial, 'fields': tuple(fields), 'bodyT': bodyT, 'body': body}
+        message.DBusMessage._nextSerial = serial
+        f = {ATTR[x[0]][0]: bytes(x[2]).decode() for x in fields if x[0] != 9}
+        oob = []
+        mo = message.MethodCallMessage(f['path'], f['member'], destination=f.get('destination'),
+                                       signature=''.join(wc.sig(t) for t in bodyT), body=pybody, oobFDs=oob)
+        yield m, mo, oob == fds
+
+
 def model_cases(chk):
     def one(t):
         cfg = ('SPECIFICATION Spec\nCONSTANTS\n  MTypes = {%d}\nINVARIANT RefWellFormed\nINVARIANT RefParseBack\n'
@@ -244,6 +273,24 @@ def run(tier, seed):
                    'body': ('exception', '%s: %s' % (type(ex).__name__, str(ex)[:60]))}
         parse_tr.append(({'c': {'m': m2, 'le': le, 'sigpos': sp}, 'raw': tuple(raw), 'rec': got,
                           'ser': {'start': 0, 'after': 0}}, m2))
+    # method calls carrying file descriptors, several in a row and mixed with ordinary ones: the UNIX_FDS
+    # field appears exactly once, with the number of descriptors
+    try:
+        for j, (m, mo, ok) in enumerate(fd_messages(rng, 60 if thorough else 12)):
+            if not ok:
+                chk.violation('descriptors of a constructed message were not collected in order', dict(kind='case', m=repr(m)))
+            own.append(({'c': {'m': m, 'le': True, 'sigpos': 0}, 'raw': tuple(mo.rawMessage), 'rec': {},
+                         'ser': {'start': mo.serial, 'after': message.DBusMessage._nextSerial}}, m))
+            if j % 3 == 2:
+                m0 = rand_msg(rng)
+                m0 = dict(m0, type=1, nr=False, na=False, fields=((1, ('o',), (47, 112)), (3, ('s',), (77,))))
+                mo = construct(m0, j)
+                own.append(({'c': {'m': m0, 'le': True, 'sigpos': 0}, 'raw': tuple(mo.rawMessage), 'rec': {},
+                             'ser': {'start': mo.serial, 'after': message.DBusMessage._nextSerial}}, m0))
+        chk.notes['fd_messages'] = 60 if thorough else 12
+    except Exception as ex:
+        chk.violation('constructor raised %s for a message carrying descriptors' % type(ex).__name__,
+                      dict(kind='exception', module='c03', trace=core.traceback_str()))
     cc = 'CONSTANTS\n MTypes = {1}\n'
     for label, batch, pred in (('constructed', own, 'TraceOwn'), ('parsed', parse_tr, 'TraceParse')):
         traces = [[({'n': 'Init'}, st)] for st, _ in batch]
@@ -306,7 +353,8 @@ def run(tier, seed):
     chk.assumptions = ['field order of constructed messages is not prescribed: constructed bytes are judged by the '
                        'reference parser (WellFormed / Recovered) rather than byte equality',
                        'name validity is decided by C18; 128 MiB messages only in the thorough tier',
-                       'messages carrying UNIX_FD are covered by C20']
+                       'constructed messages carrying UNIX_FD are judged here (UNIX_FDS field once, indices in order); '
+                       'their transport and parsing with real descriptors is C20']
     return chk.finish(
         rule='every state of MC_Message (4 types x field subsets x orders x unknown field x flags x bodies x byte '
              'order x signature position) is parsed by the implementation and, where constructible, built by it; '
